@@ -13,6 +13,8 @@ for name in sorted(os.listdir(os.path.join(V, 'seeded'))):
     v = m.get('verification') or {}
     cs = [(c, r) for c, r in (v.get('checks') or {}).items() if r.get('exit') == 1]
     own = [c for c, r in cs if c == m['property']]
+    if m.get('obsolete'):
+        rows.append('| %s | %s | %s | obsolete: %s |' % (name, clip(m.get('what', ''), 170), clip(m.get('needs', ''), 150), clip(m['obsolete'], 200))); continue
     n += 1; caught += 1 if own else 0
     rel = ''
     for c, r in cs:
